@@ -12,6 +12,9 @@ Constraints: scalar int / float nodes in m / cm carrying an option list that hol
 the unit of the definition or in another unit) and / or a condition, so that the validation pass of parse() runs.
 Functions: a node v computed by a DIP function (DIP.add_function) that converts, returns or reads node a; node a must
 keep the unit / value / type of its definition.
+Injection: the first occurrence of a is `a = {?src}`, `{?src}[1:]` or `{?src}[1]` (unit taken from src), then modified.
+Nonlinear: float nodes (scalar, array; defined, declared) in K / Cel / degF (affine, exact Fraction reference) and in
+B / dB / PR (logarithmic; only the exact levels 0, -2, 4 B = 1, 0.01, 10000 PR are written).
 Placements: root; inside a group (indented); group + dotted-path modifications; group re-opened; DIP(env) chain.
 
 Integer nodes in cm / mm are modified with values (290, -290, 7000, 17000) whose conversion from mm / um is a whole number
@@ -43,8 +46,13 @@ ASSUMPTIONS = [
 ]
 
 NWIN = 26
-OTHER = {"m": ("cm", "km"), "cm": ("mm", "[cu]"), "J": ("erg", "eV"), "[cu]": ("m", "km"), "mm": ("um", "cm")}
-WRONG = {"m": "s", "cm": "J", "J": "m", "[cu]": "s", "mm": "s"}
+OTHER = {"m": ("cm", "km"), "cm": ("mm", "[cu]"), "J": ("erg", "eV"), "[cu]": ("m", "km"), "mm": ("um", "cm"),
+         # affine (temperature) and logarithmic (level of a power ratio) units
+         "K": ("Cel", "degF"), "Cel": ("K", "degF"), "B": ("PR", "dB"), "PR": ("B", "dB")}
+WRONG = {"m": "s", "cm": "J", "J": "m", "[cu]": "s", "mm": "s", "K": "m", "Cel": "m", "B": "m", "PR": "m"}
+LEVEL_UNITS = ("B", "dB", "PR")
+# the three values of a level family are the levels 0 B, -2 B and 4 B, written in the scale of the unit of the line
+LEVEL_TEXTS = {"B": ("0", "-2", "4"), "dB": ("0", "-20", "40"), "PR": ("1", "0.01", "10000")}
 # integer nodes defined in cm / mm get values whose conversion mm -> cm, um -> mm is a whole number exactly (selected by
 # the Fraction reference) but NOT in binary floating point (290 mm = 28.999999999999996 cm, 7000 um = 6.999999999999999 mm)
 INEXACT_UNITS = ("cm", "mm")
@@ -63,7 +71,12 @@ def _arr(texts, base):
 
 
 def values(base, shape, unit=None):
-    """modification values of a family: list of (tag, LIT)"""
+    """modification values of a family: list of (tag, LIT); for level units `unit` is the unit the literal is written in"""
+    if unit in LEVEL_UNITS:
+        z, n, p = LEVEL_TEXTS[unit]
+        if shape == "scalar":
+            return [("zero", _num(z, base)), ("negative", _num(n, base)), ("positive", _num(p, base))]
+        return [("zero", _arr([z, z], base)), ("negative", _arr([z, n], base)), ("positive", _arr([p, z], base))]
     if base == "int" and unit in INEXACT_UNITS:
         if shape == "scalar":
             return [("zero", _num("0", base)), ("negative", _num("-290", base)), ("positive", _num("7000", base))]
@@ -90,7 +103,9 @@ NONE = G.lit("none", None)
 
 
 def first_value(base, shape, variant):
-    """value of the definition: normal / falsy / none"""
+    """value of the definition: normal / falsy / none (the injected definitions have the normal value)"""
+    if variant in INJECTIONS:
+        variant = "normal"
     if variant == "none":
         return NONE
     if base in ("int", "float"):
@@ -103,6 +118,48 @@ def first_value(base, shape, variant):
     if variant == "normal":
         return G.lit("init", "init") if shape == "scalar" else G.lit('["p","q"]', ["p", "q"], "array")
     return G.lit("''", "") if shape == "scalar" else G.lit('["",""]', ["", ""], "array")
+
+
+# first occurrence = definition by injection of (a slice of) another node `src`; a gets the normal first value
+INJECTIONS = {"inj": "{?src}", "inj-slice": "{?src}[1:]", "inj-item": "{?src}[1]"}
+
+
+def injection_lines(fam):
+    """(definition of src, literal of a) for a family whose first occurrence is an injection"""
+    kw, unit, shape, first, variant = fam
+    base = G.TYPEINFO[kw][3]
+    val = first_value(base, shape, "normal")
+    if variant == "inj":
+        src_lit, dims = val, "[2]"
+    else:
+        arr = first_value(base, "array", "normal")
+        lead = {"int": ("4", 4), "float": ("1.5", 1.5), "bool": ("false", False)}[base]
+        inner = arr["text"][1:-1]
+        src_lit = G.lit("[%s,%s]" % (lead[0], inner), [lead[1]] + arr["value"], "array")
+        dims = "[3]"
+    src = dict(k="def", d=0, name="src", type=kw, dims=dims, lit=src_lit, unit=unit)
+    L = G.lit(INJECTIONS[variant], val["value"], val["kind"])
+    return src, L
+
+
+def injection_families():
+    out = []
+    for kw, units in (("int", (None, "cm")), ("float", (None, "cm")), ("bool", (None,))):
+        for unit in units:
+            out.append((kw, unit, "scalar", "def", "inj-item"))
+            out.append((kw, unit, "array", "def", "inj-slice"))
+            out.append((kw, unit, "array", "def", "inj"))
+    return out
+
+
+def nonlinear_families():
+    """float nodes in temperature (affine) and level (logarithmic) units"""
+    out = []
+    for unit in ("K", "Cel", "B", "PR"):
+        for shape in ("scalar", "array"):
+            out.append(("float", unit, shape, "def", "normal"))
+            out.append(("float", unit, shape, "decl", None))
+    return out
 
 
 # ------------------------------------------------------------------------------------------------ families
@@ -208,7 +265,6 @@ def _mod_line(fam, step, name, d):
     kw, unit, shape, first, variant = fam
     typed, vtag, uc = step
     base = G.TYPEINFO[kw][3]
-    L = NONE if vtag == "none" else dict(values(base, shape, unit))[vtag]
     mu = None
     if uc == "same":
         mu = unit
@@ -216,6 +272,8 @@ def _mod_line(fam, step, name, d):
         mu = OTHER[unit][0]
     elif uc == "o2":
         mu = OTHER[unit][1]
+    wu = (mu or unit) if unit in LEVEL_UNITS else unit
+    L = NONE if vtag == "none" else dict(values(base, shape, wu))[vtag]
     return dict(k="mod", d=d, name=name, type=(kw if typed else None),
                 dims=("[2]" if (typed and shape == "array") else None), lit=L, unit=mu)
 
@@ -237,7 +295,11 @@ def build(fam, seq, placement="root", bad=None, bad_at=None, constant=False, und
     d0 = 1 if inner else 0
     if inner:
         head.append(dict(k="group", d=0, name="g"))
-    if first == "def":
+    if first == "def" and variant in INJECTIONS:
+        src, L = injection_lines(fam)
+        head.append(src)
+        head.append(dict(k="def", d=d0, name="a", type=kw, dims=dims, lit=L, unit=unit, hide_unit=True))
+    elif first == "def":
         head.append(dict(k="def", d=d0, name="a", type=kw, dims=dims, lit=first_value(base, shape, variant),
                          unit=unit))
     else:
@@ -625,6 +687,23 @@ def _extra_cases(tier, seed):
                     yield dict(sub="functions", fam=F, seq=[list(x) for x in seq], fn=fn, pos=pos)
 
 
+def _more_cases(tier, seed):
+    """injection: the first occurrence of a is a definition by (sliced) injection of node src;
+    nonlinear: float nodes in temperature / level units (affine and logarithmic conversions), scalars and arrays"""
+    for sub, fams in (("injection", injection_families()), ("nonlinear", nonlinear_families())):
+        for fam in fams:
+            F = list(fam)
+            full, core = steps(fam), steps(fam, core=True)
+            seqs = [(x,) for x in full]
+            if tier == "thorough":
+                seqs += list(itertools.product(full, full)) + list(itertools.product(core, repeat=3))
+            else:
+                seqs += list(itertools.product(core, core))
+            for seq in seqs:
+                if final_ok(seq):
+                    yield dict(sub=sub, fam=F, seq=[list(x) for x in seq])
+
+
 NEXTRA = 8
 
 
@@ -655,7 +734,7 @@ def run_shard(desc):
     idx = 0
     if desc[0] == "x":
         _, tier, seed, k, n = desc
-        for d in _extra_cases(tier, seed):
+        for d in itertools.chain(_extra_cases(tier, seed), _more_cases(tier, seed)):
             idx += 1
             if idx % n == k:
                 run_case(d, sh, seen)
@@ -680,7 +759,7 @@ def replay(rec):
 
 def finish(total, tier, seed):
     h = total.hist
-    need = ["expect=accept", "sub=sequence", "sub=placement", "sub=negative", "sub=constraints", "sub=functions", "len=3", "feature=last:zero",
+    need = ["expect=accept", "sub=sequence", "sub=placement", "sub=negative", "sub=constraints", "sub=functions", "sub=injection", "sub=nonlinear", "len=3", "feature=last:zero",
             "feature=last:none", "feature=last:false", "feature=last:empty", "feature=conversion", "feature=array",
             "feature=earlier:none-with-unit",
             "feature=typed-mod"] + ["placement=" + p for p in PLACEMENTS]
@@ -701,7 +780,8 @@ MANIFEST = dict(
          "(1 of 26 windows, chosen by VERIF_SEED; thorough: all windows), five placements (root, group, dotted path, re-opened group, DIP(env) chain) and negative "
          "programs (other data type, other dimension, constant, never assigned, undefined node) that must be rejected; "
          "nodes carrying option lists (same / other unit) and conditions so that validation runs; nodes read or "
-         "converted by DIP functions of another node.",
+         "converted by DIP functions of another node; first occurrences defined by (sliced) injection; float scalars "
+         "and arrays in temperature (K, Cel, degF) and level (B, dB, PR) units.",
     note="Unit factors hand-written (SI definitions), converted values compared to 1e-12 relative. Not covered: none "
          "with a unit, units on unit-less nodes, non-integral integer conversions, non-linear units, shape changes.",
     technique="bounded grammar enumeration, reference interpreter over the generator AST with exact Fraction unit algebra",
